@@ -17,6 +17,7 @@ func init() {
 		Title: "BufferedWriteSyncer delivers every byte once, in order, in whole writes",
 		Fn:    checkC12,
 		Explanation: "Decides the structural part of the buffered syncer: every access to its mutable state happens with its mutex held (frozen guarded-by table; initialize is only called with the lock held; the flush loop reads only fields written before its go statement); Write buffers the ORIGINAL parameter in exactly one bufio write and flushes first exactly when the write does not fit and the buffer is non-empty, returning (0, err) on a flush error; Sync flushes (when initialised) and then always syncs the sink; the Stop protocol (flag tested and set in one critical section, ticker stopped and stop channel closed only on the path that set it, the wait for the flush goroutine happens with the mutex released, a final Sync follows, the other paths return without blocking); the flush loop closes done on exit, exits only on stop, and calls Sync on every tick; initialize contains the single go statement. " +
+			"Also decided: every call into the wrapped sink or the bufio writer (Write, Flush, Sync) is made with the mutex held on every path, so the sink needs no lock of its own. " +
 			"NOT decided: bufio.Writer's byte-exact behaviour (trusted), timing, the prefix property after kill -9, the interleavings themselves.",
 		Assumptions: commonAssumptions,
 	}
